@@ -1,4 +1,8 @@
 import SageModel.Props.C12Rle
+import Mathlib.Tactic.Ring
+import Mathlib.Tactic.Positivity
+import Mathlib.Tactic.Linarith
+import Mathlib.Algebra.Order.Field.Rat
 
 /-!
 # C12 — further laws of the spectrum q-value model
@@ -382,5 +386,71 @@ example : (spectrumQ (List.replicate 100 false ++ [true])).2 = 100 := by
   rw [e] at h
   rw [← h]
   norm_num [qRle, qRleAux, runPieces, targetPiece, decoyPieces, ratioC, ratio, minOpt, headOr]
+
+/-! ### closed forms for the degenerate lists the property names (all-decoy, all-target) -/
+
+theorem counts_decoys (d n : Nat) : (counts d 0 (List.replicate n true)).map ratio = List.replicate n none := by
+  induction n generalizing d with
+  | zero => rfl
+  | succ n ih => simp [List.replicate_succ, counts, ratio, ih]
+
+theorem cummin_none (n : Nat) : cummin (List.replicate n none) = List.replicate n 1 := by
+  induction n with
+  | zero => rfl
+  | succ n ih =>
+    simp only [List.replicate_succ, cummin, ih, minOpt]
+    cases n <;> simp [List.replicate_succ, hd]
+
+/-- **C12.q_all_decoys** — an all-decoy list of ANY length: every q-value is the cap `1` (no target, no
+finite ratio ever), and the passing count is 0. -/
+theorem q_all_decoys (n : Nat) :
+    (spectrumQ (List.replicate n true)).1 = List.replicate n 1 ∧ (spectrumQ (List.replicate n true)).2 = 0 := by
+  have e : (spectrumQ (List.replicate n true)).1 = List.replicate n 1 := by
+    simp only [spectrumQ, counts_decoys, cummin_none]
+  refine ⟨e, ?_⟩
+  have : (spectrumQ (List.replicate n true)).2 =
+      ((spectrumQ (List.replicate n true)).1.filter (fun q => decide (q ≤ 1/100))).length := rfl
+  rw [this, e]
+  rw [List.length_eq_zero_iff, List.filter_eq_nil_iff]
+  intro q hq
+  rw [List.mem_replicate] at hq
+  rw [hq.2]
+  norm_num
+
+theorem cummin_targets (t n : Nat) :
+    cummin ((counts 1 t (List.replicate (n + 1) false)).map ratio) = List.replicate (n + 1) (1 / ((t + n + 1 : Nat) : Rat)) := by
+  induction n generalizing t with
+  | zero =>
+    simp only [List.replicate_succ, List.replicate_zero, counts, List.map_cons, List.map_nil, cummin, hd, ratio]
+    simp only [Bool.false_eq_true, if_false, Nat.add_eq_zero_iff, one_ne_zero, and_false, minOpt]
+    congr 1
+    rw [min_eq_right]
+    · push_cast; ring
+    · push_cast
+      rw [div_le_one (by positivity)]
+      linarith [(Nat.cast_nonneg t : (0 : Rat) ≤ t)]
+  | succ n ih =>
+    have := ih (t + 1)
+    rw [List.replicate_succ, counts]
+    simp only [Bool.false_eq_true, if_false, List.map_cons]
+    rw [cummin]
+    simp only [this]
+    rw [List.replicate_succ (n := n + 1)]
+    simp only [List.replicate_succ, hd, ratio, Nat.add_eq_zero_iff, one_ne_zero, and_false, if_false, minOpt]
+    congr 1
+    · rw [min_eq_left]
+      · push_cast; ring_nf
+      · push_cast
+        apply div_le_div_of_nonneg_left <;> first | positivity | linarith [(Nat.cast_nonneg n : (0 : Rat) ≤ n)]
+    · have : t + 1 + n + 1 = t + (n + 1) + 1 := by omega
+      simp [this]
+/-- **C12.q_all_targets** — an all-target list of ANY positive length `n+1`: every q-value is `1/(n+1)`
+(the pseudo-count decoy over all targets, attained at the last cut-off). -/
+theorem q_all_targets (n : Nat) :
+    (spectrumQ (List.replicate (n + 1) false)).1 = List.replicate (n + 1) (1 / ((n + 1 : Nat) : Rat)) := by
+  have := cummin_targets 0 n
+  simpa [spectrumQ] using this
+example : (spectrumQ (List.replicate 4 false)).1 = [1/4, 1/4, 1/4, 1/4] := by
+  rw [q_all_targets 3]; norm_num [List.replicate]
 
 end Sage.C12
